@@ -461,3 +461,336 @@ Example C03_contract_nonvacuous :
   check_contract 10 3 MZero (XRat 1 8) 125 (-3) FExact = true /\
   check_contract 10 3 MZero (XRat 1 8) 12 (-2) (FInexact NoOp) = false.
 Proof. vm_compute. repeat split. Qed.
+
+(* ===================================================================================================== *)
+(** round 3: operands LONGER than the precision, the remainders, the remaining FBig forms, every Repr::new,
+    the f32 filter on Flocq's binary32 *)
+From Dashu Require Import Float.LongModel Float.AddLongProof Float.MulDivLongProof Float.SqrtLongProof Float.RemProof
+  Float.FormsLongProof Float.NormalProof Float.F32Flocq Float.LongParamsProof.
+From DashuGen Require Import FloatLongParams.
+
+(** Context::add / Context::sub (as repaired) for operands of ANY length - stored Reprs (not divisible by the base)
+    or operands that fit: the documented contract (rounded_sum) outside the class of the finding
+    add_overlong_cancellation, for every sound digit estimate *)
+Theorem C03_add_any_length : forall B, 2 <= B -> forall digits_ub, (forall s, dlen B s <= digits_ub s) ->
+  forall p m s1 e1 s2 e2, 1 <= p -> operand_ok B p s1 -> operand_ok B p s2 ->
+  add_short_class B p s1 e1 s2 e2 Positive = false ->
+  rounded_sum B p m (exact_sum B s1 e1 s2 e2 Positive) (Z.min e1 e2) (ctx_add B digits_ub p m s1 e1 s2 e2).
+Proof. exact ctx_add_long. Qed.
+Print Assumptions C03_add_any_length.
+
+Theorem C03_sub_any_length : forall B, 2 <= B -> forall digits_ub, (forall s, dlen B s <= digits_ub s) ->
+  forall p m s1 e1 s2 e2, 1 <= p -> operand_ok B p s1 -> operand_ok B p s2 ->
+  add_short_class B p s1 e1 s2 e2 Negative = false ->
+  rounded_sum B p m (exact_sum B s1 e1 s2 e2 Negative) (Z.min e1 e2) (ctx_sub_fixed B digits_ub p m s1 e1 s2 e2).
+Proof. exact ctx_sub_long. Qed.
+Print Assumptions C03_sub_any_length.
+
+(** an effective addition (operands of one sign) is never in the class; the repaired Context::sub is the pinned
+    model whenever the subtrahend fits or the minuend is not zero *)
+Theorem C03_add_same_sign_never_short : forall B, 2 <= B -> forall p s1 e1 s2 e2 sg,
+  1 <= p -> 0 < s1 * (sgnz sg * s2) -> add_short_class B p s1 e1 s2 e2 sg = false.
+Proof. exact add_short_class_same_sign. Qed.
+Print Assumptions C03_add_same_sign_never_short.
+
+Theorem C03_sub_repaired_is_pinned : forall B digits_ub p m s1 e1 s2 e2, dlen B s2 <= p \/ s1 <> 0 ->
+  ctx_sub_fixed B digits_ub p m s1 e1 s2 e2 = ctx_sub B digits_ub p m s1 e1 s2 e2.
+Proof. exact ctx_sub_fixed_fits. Qed.
+Print Assumptions C03_sub_repaired_is_pinned.
+
+(** repr_round_sum itself, any significand and low part: correct unless, after its single re-alignment step, fewer
+    than p digits stand above the rounding position while a low part remains *)
+Theorem C03_round_sum_any_input : forall B, 2 <= B -> forall p m sig e low lp is_sub,
+  1 <= p -> 0 <= lp -> Z.abs low < B ^ lp -> rrs_short B p sig low lp is_sub = false ->
+  rounded_sum B p m (sig * B ^ lp + low) (e - lp) (repr_round_sum B p m sig e low lp is_sub).
+Proof. exact rrs_general. Qed.
+Print Assumptions C03_round_sum_any_input.
+
+Theorem C03_add_overlong_refuted :
+  add_short_class 10 2 11 5 1099999 0 Negative = true /\
+  ctx_sub_fixed_x 10 2 MZero 11 5 1099999 0 = AInexact 0 3 SubOne /\
+  exact_sum 10 11 5 1099999 0 Negative = 1 /\
+  ~ rounded_sum 10 2 MZero 1 0 (AInexact 0 3 SubOne).
+Proof. exact add_overlong_refuted. Qed.
+Print Assumptions C03_add_overlong_refuted.
+
+(** Context::mul / sqr / cubic up to their pre-shrinking thresholds (2p, 2p, 3p digits): one rounding of the exact
+    product, the documented contract *)
+Theorem C03_mul_sqr_cubic_upto_thresholds : forall B, 2 <= B -> forall p m s1 e1 s2 e2, 1 <= p ->
+  (mul_long_class B p s1 s2 = false ->
+     ctx_mul B p m s1 e1 s2 e2 = (let '(s, e) := normalize B (s1 * s2) (e1 + e2) in repr_round B p m s e) /\
+     rounded_sum B p m (s1 * s2) (e1 + e2) (ctx_mul B p m s1 e1 s2 e2)) /\
+  (sqr_long_class B p s1 = false ->
+     ctx_sqr B p m s1 e1 = (let '(s', e') := normalize B (s1 * s1) (2 * e1) in repr_round B p m s' e') /\
+     rounded_sum B p m (s1 * s1) (2 * e1) (ctx_sqr B p m s1 e1)) /\
+  (cubic_long_class B p s1 = false ->
+     ctx_cubic B p m s1 e1 = (let '(s', e') := normalize B (s1 * s1 * s1) (3 * e1) in repr_round B p m s' e') /\
+     rounded_sum B p m (s1 * s1 * s1) (3 * e1) (ctx_cubic B p m s1 e1)).
+Proof.
+  intros B HB p m s1 e1 s2 e2 Hp. split; [|split]; intros Hc.
+  - apply ctx_mul_long; assumption.
+  - apply ctx_sqr_long; assumption.
+  - apply ctx_cubic_long; assumption.
+Qed.
+Print Assumptions C03_mul_sqr_cubic_upto_thresholds.
+
+(** Context::div: any divisor, a dividend of up to p + digits(divisor) digits, any digit estimates; beyond that the
+    dividend is always rounded first (sound estimates) *)
+Theorem C03_div_upto_threshold : forall B, 2 <= B -> forall digits_ub digits_lb p m s1 e1 s2 e2,
+  1 <= p -> s2 <> 0 -> div_long_class B p s1 s2 = false ->
+  let k := repr_div_shift B p s1 s2 in
+  0 <= k /\
+  exists a, ctx_div B digits_ub digits_lb p m s1 e1 s2 e2 = Ok a /\ approx_exp a = e1 - e2 - k /\
+    rounded_quot B p m (Z.sgn s2 * (s1 * B ^ k)) (Z.abs s2) a.
+Proof. exact ctx_div_long. Qed.
+Print Assumptions C03_div_upto_threshold.
+
+Theorem C03_div_beyond_threshold_shrinks : forall B, 2 <= B -> forall digits_ub digits_lb p m s1 e1 s2 e2,
+  0 <= p -> (forall s, dlen B s <= digits_ub s) -> (forall s, digits_lb s <= dlen B s) ->
+  div_long_class B p s1 s2 = true ->
+  ctx_div B digits_ub digits_lb p m s1 e1 s2 e2 =
+  (let '(s1', e1') := approx_val (repr_round B (dlen B s2 + p) m s1 e1) in repr_div B p m s1' e1' s2 e2).
+Proof. exact ctx_div_long_shrinks. Qed.
+Print Assumptions C03_div_beyond_threshold_shrinks.
+
+Theorem C03_overlong_double_rounding_refuted :
+  mul_long_class 10 1 149 1 = true /\ ctx_mul 10 1 MHalfEven 149 0 1 0 = AInexact 2 2 AddOne /\
+  ~ rounded_sum 10 1 MHalfEven (149 * 1) 0 (AInexact 2 2 AddOne) /\
+  div_long_class 10 1 149 1 = true /\ ctx_div_x 10 1 MHalfEven 149 0 1 0 = Ok (AExact 15 1) /\ 15 * 10 ^ 1 <> 149 /\
+  sqr_long_class 10 1 123 = true /\ ctx_sqr 10 1 MHalfEven 123 0 = AInexact 1 4 NoOp /\
+  ~ rounded_sum 10 1 MHalfEven (123 * 123) 0 (AInexact 1 4 NoOp) /\
+  cubic_long_class 10 1 1145 = true /\ ctx_cubic 10 1 MHalfEven 1145 0 = AInexact 1 9 NoOp /\
+  ~ rounded_sum 10 1 MHalfEven (1145 * 1145 * 1145) 0 (AInexact 1 9 NoOp).
+Proof. exact overlong_double_rounding_refuted. Qed.
+Print Assumptions C03_overlong_double_rounding_refuted.
+
+(** Context::sqrt for a radicand of ANY length: one rounding of sqrt (M / K), M / K the radicand as the code scales or
+    cuts it, exact only if nothing was cut off and the prefix is a perfect square *)
+Theorem C03_sqrt_any_length : forall B, 2 <= B -> forall p m s e, 1 <= p -> 0 <= s ->
+  let shift := sqrt_shift B p s e in
+  let M := fst (sqrt_radicand B p s e) in
+  let K := snd (sqrt_radicand B p s e) in
+  e - shift = 2 * ((e - shift) / 2) /\ 0 < K /\ 0 <= M /\
+  M = s * B ^ (Z.max shift 0) /\ K = B ^ (Z.max (- shift) 0) /\
+  exists a, ctx_sqrt B p m s e = Ok a /\ rounded_sqrt_frac B p m M K ((e - shift) / 2) a.
+Proof. exact ctx_sqrt_long. Qed.
+Print Assumptions C03_sqrt_any_length.
+
+Theorem C03_sqrt_frac_is_the_contract : forall m M K, 0 <= M -> 0 < K ->
+  let t := Z.sqrt (M / K) in let R := sqrt_round_frac m M K in
+  0 <= t /\ t * t * K <= M < (t + 1) * (t + 1) * K /\ (R = t \/ R = t + 1) /\
+  (t * t * K <> M ->
+   match m with
+   | MDown | MZero => R * R * K < M
+   | MUp | MAway => M < R * R * K
+   | MHalfAway => (R = t -> 4 * M < (2 * t + 1) * (2 * t + 1) * K) /\ (R = t + 1 -> (2 * t + 1) * (2 * t + 1) * K <= 4 * M)
+   | MHalfEven => (R = t -> 4 * M <= (2 * t + 1) * (2 * t + 1) * K) /\ (R = t + 1 -> (2 * t + 1) * (2 * t + 1) * K <= 4 * M) /\
+                  (4 * M = (2 * t + 1) * (2 * t + 1) * K -> Z.even R = true)
+   end).
+Proof. exact sqrt_round_frac_contract. Qed.
+Print Assumptions C03_sqrt_frac_is_the_contract.
+
+Theorem C03_sqrt_frac_int : forall m N, 0 <= N -> sqrt_round_frac m N 1 = sqrt_round m N.
+Proof. exact sqrt_round_frac_int. Qed.
+Print Assumptions C03_sqrt_frac_int.
+
+(** Context::rem: the three alignment cases compute the remainder of least magnitude (ties: quotient away from zero),
+    which is then rounded once - the documented contract with that remainder as the exact value *)
+Theorem C03_rem_alignment_cases : forall B, 2 <= B -> forall s1 e1 s2 e2, s2 <> 0 ->
+  repr_rem_sig B s1 e1 s2 e2 = rem_exact B s1 e1 s2 e2.
+Proof. exact repr_rem_sig_spec. Qed.
+Print Assumptions C03_rem_alignment_cases.
+
+Theorem C03_rem_least : forall B, 2 <= B -> forall s1 e1 s2 e2, s2 <> 0 ->
+  let e0 := Z.min e1 e2 in
+  let A := s1 * B ^ (e1 - e0) in let D := s2 * B ^ (e2 - e0) in
+  let x := rem_exact B s1 e1 s2 e2 in
+  (exists n, A = n * D + x) /\ 2 * Z.abs x <= Z.abs D /\ (2 * Z.abs x = Z.abs D -> A * x <= 0).
+Proof. exact rem_exact_least. Qed.
+Print Assumptions C03_rem_least.
+
+Theorem C03_rem : forall B, 2 <= B -> forall p m s1 e1 s2 e2, 1 <= p -> s2 <> 0 ->
+  exists a, repr_rem B p m s1 e1 s2 e2 = Ok a /\ rounded_sum B p m (rem_exact B s1 e1 s2 e2) (Z.min e1 e2) a.
+Proof. exact repr_rem_correct. Qed.
+Print Assumptions C03_rem.
+
+(** div_euclid is exact; rem_euclid is the Euclidean remainder rounded once to Context::max; all panic on a zero divisor *)
+Theorem C03_euclid : forall B, 2 <= B -> forall p1 p2 m s1 e1 s2 e2, s2 <> 0 ->
+  let num := s1 * B ^ (e1 - Z.min e1 e2) in let den := s2 * B ^ (e2 - Z.min e1 e2) in
+  (exists q, fbig_div_euclid B s1 e1 s2 e2 = Ok q /\ exists r, num = q * den + r /\ 0 <= r < Z.abs den) /\
+  (1 <= ctx_max p1 p2 ->
+   exists a, rounded_sum B (ctx_max p1 p2) m (euclid_r num den) 0 a /\
+     fbig_rem_euclid B p1 p2 m s1 e1 s2 e2 =
+     Ok (let '(rs, re) := normalize B (approx_sig a) (approx_exp a) in
+         if rs =? 0 then (rs, re) else (rs, re + Z.min e1 e2))) /\
+  fbig_rem B p1 p2 m s1 e1 s2 e2 = map_val (repr_rem B (ctx_max p1 p2) m s1 e1 s2 e2).
+Proof.
+  intros B HB p1 p2 m s1 e1 s2 e2 Hs. split; [apply fbig_div_euclid_correct; assumption|].
+  split; [intros Hp; apply fbig_rem_euclid_correct; assumption | reflexivity].
+Qed.
+Print Assumptions C03_euclid.
+
+Theorem C03_rem_panics : forall B p p1 p2 m s1 e1 e2,
+  repr_rem B p m s1 e1 0 e2 = Panic DivideBy0 /\
+  fbig_div_euclid B s1 e1 0 e2 = Panic DivideBy0 /\ fbig_rem_euclid B p1 p2 m s1 e1 0 e2 = Panic DivideBy0 /\
+  fbig_div_rem_euclid B p1 p2 m s1 e1 0 e2 = Panic DivideBy0.
+Proof. intros. split; [reflexivity | apply euclid_by_zero]. Qed.
+Print Assumptions C03_rem_panics.
+
+(** FBig::sqr / cubic / sqrt / inv and + / - with a primitive or big-integer operand *)
+Theorem C03_unary_forms : forall B, 2 <= B -> forall p m s e,
+  fbig_sqr B p m s e = approx_val (ctx_sqr B p m s e) /\ fbig_cubic B p m s e = approx_val (ctx_cubic B p m s e) /\
+  fbig_sqrt B p m s e = map_val (ctx_sqrt B p m s e) /\ fbig_inv B p m s e = map_val (ctx_inv B p m s e) /\
+  (1 <= p -> s <> 0 ->
+     let k := repr_div_shift B p 1 s in
+     exists a, ctx_inv B p m s e = Ok a /\ fbig_inv B p m s e = Ok (approx_val a) /\ approx_exp a = 0 - e - k /\
+       rounded_quot B p m (Z.sgn s * (1 * B ^ k)) (Z.abs s) a) /\
+  (1 <= p -> 0 <= s -> dlen B s <= p ->
+     let shift := sqrt_shift B p s e in
+     exists a, ctx_sqrt B p m s e = Ok a /\ fbig_sqrt B p m s e = Ok (approx_val a) /\
+       rounded_sqrt B p m (s * B ^ shift) ((e - shift) / 2) a).
+Proof. exact unary_forms. Qed.
+Print Assumptions C03_unary_forms.
+
+Theorem C03_primitive_add_forms : forall B, 2 <= B -> forall digits_ub, (forall s, dlen B s <= digits_ub s) ->
+  forall p m s e n sg, 1 <= p -> dlen B s <= p ->
+  let '(sn, en) := prim_repr B n in
+  let pm := ctx_max p (prim_prec B n) in
+  pm = Z.max p (prim_prec B n) /\ ctx_max (prim_prec B n) p = pm /\
+  form_ok B pm m s e sn en sg (add_float_prim_vv B digits_ub p m s e n sg) /\
+  form_ok B pm m s e sn en sg (add_float_prim_rv B digits_ub p m s e n sg) /\
+  form_ok B pm m sn en s e sg (add_prim_float_vv B digits_ub p m n s e sg) /\
+  form_ok B pm m sn en s e sg (add_prim_float_vr B digits_ub p m n s e sg).
+Proof. exact prim_add_forms. Qed.
+Print Assumptions C03_primitive_add_forms.
+
+(** normalisation: with stored operands every Context operation returns a stored Repr (zero = (0, 0), otherwise not
+    divisible by the base - also after a carry), and the model with every Repr::new is the pinned model + one
+    normalisation *)
+Theorem C03_results_are_normalised : forall B, 2 <= B -> forall digits_ub digits_lb p m s1 e1 s2 e2,
+  is_normal B s1 e1 = true -> is_normal B s2 e2 = true ->
+  approx_normal B (repr_round_n B p m s1 e1) /\
+  approx_normal B (ctx_add_n B digits_ub p m s1 e1 s2 e2) /\ approx_normal B (ctx_sub_n B digits_ub p m s1 e1 s2 e2) /\
+  approx_normal B (ctx_mul_n B p m s1 e1 s2 e2) /\ approx_normal B (ctx_sqr_n B p m s1 e1) /\ approx_normal B (ctx_cubic_n B p m s1 e1) /\
+  result_normal B (repr_div_n B p m s1 e1 s2 e2) /\ result_normal B (ctx_div_n B digits_ub digits_lb p m s1 e1 s2 e2) /\
+  result_normal B (ctx_inv_n B p m s2 e2) /\ result_normal B (ctx_sqrt_n B p m s1 e1) /\ result_normal B (repr_rem_n B p m s1 e1 s2 e2).
+Proof.
+  intros B HB ub lb p m s1 e1 s2 e2 H1 H2.
+  split; [apply repr_round_n_eq; assumption|]. split; [apply ctx_add_n_eq; assumption|]. split; [apply ctx_sub_n_eq; assumption|].
+  destruct (ctx_mul_n_normal B HB p m s1 e1 s2 e2) as (A & C & D). split; [exact A|]. split; [exact C|]. split; [exact D|].
+  destruct (div_n_normal B HB ub lb p m s1 e1 s2 e2) as (E & F & G). split; [exact E|]. split; [exact F|]. split; [exact G|].
+  apply sqrt_rem_n_normal. exact HB.
+Qed.
+Print Assumptions C03_results_are_normalised.
+
+Theorem C03_models_with_normalisation : forall B, 2 <= B -> forall digits_ub digits_lb p m s1 e1 s2 e2,
+  is_normal B s1 e1 = true -> is_normal B s2 e2 = true ->
+  repr_round_n B p m s1 e1 = norm_approx B (repr_round B p m s1 e1) /\
+  ctx_add_n B digits_ub p m s1 e1 s2 e2 = norm_approx B (ctx_add B digits_ub p m s1 e1 s2 e2) /\
+  ctx_sub_n B digits_ub p m s1 e1 s2 e2 = norm_approx B (ctx_sub_fixed B digits_ub p m s1 e1 s2 e2) /\
+  (mul_long_class B p s1 s2 = false -> ctx_mul_n B p m s1 e1 s2 e2 = norm_approx B (ctx_mul B p m s1 e1 s2 e2)) /\
+  (sqr_long_class B p s1 = false -> ctx_sqr_n B p m s1 e1 = norm_approx B (ctx_sqr B p m s1 e1)) /\
+  (cubic_long_class B p s1 = false -> ctx_cubic_n B p m s1 e1 = norm_approx B (ctx_cubic B p m s1 e1)) /\
+  (div_long_class B p s1 s2 = false ->
+     ctx_div_n B digits_ub digits_lb p m s1 e1 s2 e2 = map_approx (norm_approx B) (ctx_div B digits_ub digits_lb p m s1 e1 s2 e2)) /\
+  repr_rem_n B p m s1 e1 s2 e2 = map_approx (norm_approx B) (repr_rem B p m s1 e1 s2 e2) /\
+  (forall a, approx_normal B a -> norm_approx B a = a).
+Proof.
+  intros B HB ub lb p m s1 e1 s2 e2 H1 H2.
+  split; [apply repr_round_n_eq; assumption|]. split; [apply ctx_add_n_eq; assumption|]. split; [apply ctx_sub_n_eq; assumption|].
+  split; [apply ctx_mul_n_eq; exact HB|]. destruct (ctx_sqr_cubic_n_eq B HB p m s1 e1) as [S C]. split; [exact S|]. split; [exact C|].
+  split; [apply ctx_div_n_eq; exact HB|]. split; [apply repr_rem_n_eq; exact HB | apply norm_approx_id; exact HB].
+Qed.
+Print Assumptions C03_models_with_normalisation.
+
+(** the f32 pre-filter of Round::round_fract on Flocq's binary32 rounding: no assumption about f32 arithmetic is left *)
+Theorem C03_round_fract_flocq32 : forall B, 2 <= B ->
+  forall (lb ub : Z -> Q) (b_lb b_ub : Q),
+  (forall f, 0 < f -> (Q2R (lb f) <= log2R (IZR f) <= Q2R (ub f))%R) ->
+  (Q2R b_lb <= log2R (IZR B) <= Q2R b_ub)%R ->
+  forall m i fract k, 0 <= k < 2 ^ 24 ->
+  round_fract_f32 fl32 cvt32 lb ub b_lb b_ub c999_32 c1001_32 B m i fract k = round_fract B m i fract k.
+Proof. exact round_fract_flocq32. Qed.
+Print Assumptions C03_round_fract_flocq32.
+
+Theorem C03_fl32_is_binary32_rounding :
+  (forall q, Q2R (fl32 q) = Flocq.Core.Generic_fmt.round Flocq.Core.Zaux.radix2 (Flocq.Core.FLT.FLT_exp (-149) 24) Flocq.Core.Round_NE.ZnearestE (Q2R q)) /\
+  (forall x y, (x <= y)%Q -> (fl32 x <= fl32 y)%Q) /\
+  (forall k, Z.abs k < 2 ^ 24 -> (fl32 (inject_Z k) == inject_Z k)%Q) /\
+  (forall x y : Flocq.IEEE754.Bits.binary32,
+     Flocq.IEEE754.Binary.is_finite 24 128 x = true -> Flocq.IEEE754.Binary.is_finite 24 128 y = true ->
+     ((Rabs (fl32R (Flocq.IEEE754.Binary.B2R 24 128 x + Flocq.IEEE754.Binary.B2R 24 128 y)) < Flocq.Core.Raux.bpow Flocq.Core.Zaux.radix2 128)%R ->
+        Flocq.IEEE754.Binary.B2R 24 128 (Flocq.IEEE754.Bits.b32_plus Flocq.IEEE754.BinarySingleNaN.mode_NE x y) =
+          fl32R (Flocq.IEEE754.Binary.B2R 24 128 x + Flocq.IEEE754.Binary.B2R 24 128 y) /\
+        Flocq.IEEE754.Binary.is_finite 24 128 (Flocq.IEEE754.Bits.b32_plus Flocq.IEEE754.BinarySingleNaN.mode_NE x y) = true) /\
+     ((Rabs (fl32R (Flocq.IEEE754.Binary.B2R 24 128 x * Flocq.IEEE754.Binary.B2R 24 128 y)) < Flocq.Core.Raux.bpow Flocq.Core.Zaux.radix2 128)%R ->
+        Flocq.IEEE754.Binary.B2R 24 128 (Flocq.IEEE754.Bits.b32_mult Flocq.IEEE754.BinarySingleNaN.mode_NE x y) =
+          fl32R (Flocq.IEEE754.Binary.B2R 24 128 x * Flocq.IEEE754.Binary.B2R 24 128 y) /\
+        Flocq.IEEE754.Binary.is_finite 24 128 (Flocq.IEEE754.Bits.b32_mult Flocq.IEEE754.BinarySingleNaN.mode_NE x y) = true)).
+Proof.
+  split; [exact Q2R_fl32|]. split; [exact fl32_mono|]. split; [exact fl32_int | exact b32_ops_are_fl32R].
+Qed.
+Print Assumptions C03_fl32_is_binary32_rounding.
+
+(** the fragments of mul.rs / root.rs / div.rs / add.rs behind the round-3 theorems are re-read on every run *)
+Theorem C03_long_source_constants :
+  (forall B p k m s e,
+     (k = mul_shrink_factor_gen \/ k = sqr_shrink_factor_gen -> k = 2) /\ cubic_shrink_factor_gen = 3 /\
+     shrink B p 2 m s e =
+       (if p =? 0 then (s, e)
+        else if mul_shrink_cond_gen (dlen B s) (mul_shrink_factor_gen * p)
+             then let a := repr_round B (mul_shrink_factor_gen * p) m s e in (approx_sig a, approx_exp a) else (s, e)) /\
+     shrink B p 3 m s e =
+       (if p =? 0 then (s, e)
+        else if cubic_shrink_cond_gen (dlen B s) (cubic_shrink_factor_gen * p)
+             then let a := repr_round B (cubic_shrink_factor_gen * p) m s e in (approx_sig a, approx_exp a) else (s, e))) /\
+  (forall B p s1 s2,
+     mul_long_class B p s1 s2 =
+       negb (p =? 0) && (mul_shrink_cond_gen (dlen B s1) (mul_shrink_factor_gen * p) || mul_shrink_cond_gen (dlen B s2) (mul_shrink_factor_gen * p)) /\
+     sqr_long_class B p s1 = negb (p =? 0) && sqr_shrink_cond_gen (dlen B s1) (sqr_shrink_factor_gen * p) /\
+     cubic_long_class B p s1 = negb (p =? 0) && cubic_shrink_cond_gen (dlen B s1) (cubic_shrink_factor_gen * p)) /\
+  (forall B p m s e,
+     ctx_sqrt B p m s e =
+     if p =? 0 then Panic UnlimitedPrecision
+     else if s <? 0 then Panic RootNegative
+     else
+       let digits := dlen B s in
+       let shift := p * 2 - ((digits + e) mod 2) - digits in
+       let '(signif, low, low_digits) :=
+         if shift >? 0 then (shl_digits B s shift, 0, 0)
+         else let '(hi, lo) := split_digits B s (- shift) in (hi, lo, - shift) in
+       let root := Z.sqrt (Z.abs signif) in
+       let rem := Z.abs signif - root * root in
+       let exp := Z.quot (e - shift) 2 in
+       let res :=
+         if sqrt_exact_cond_gen (rem =? 0) (low =? 0) then AExact root exp
+         else
+           let adjust := round_low_part m root Positive
+                           (sqrt_half_test_gen (rem ?= root) (low * sqrt_low_mult_gen ?= B ^ low_digits)) in
+           AInexact (root + adj adjust) exp adjust in
+       Ok (approx_and_then res (fun s' e' => let '(s'', e'') := normalize B s' e' in repr_round B p m s'' e''))) /\
+  (forall sl r1 r2, rem_pick sl r1 r2 = rem_pick_gen sl r1 r2) /\
+  (forall B p m s1 e1 s2 e2,
+     repr_rem B p m s1 e1 s2 e2 =
+     if s2 =? 0 then Panic DivideBy0
+     else let sig := repr_rem_sig B s1 e1 s2 e2 in
+          if sig =? 0 then Ok (AExact 0 0)
+          else let '(s, e) := normalize B sig (rem_exponent_gen e1 e2) in Ok (repr_round B p m s e)) /\
+  (forall B digits_ub p m e1 s2 e2,
+     ctx_sub_fixed B digits_ub p m 0 e1 s2 e2 =
+     if sub_zero_negates_first_gen then repr_round B p m (- s2) e2 else approx_neg (repr_round B p m s2 e2)) /\
+  (forall lp rp d, rrs_expand_shift_gen lp rp d = Z.min lp (rp - d)) /\ rrs_loops_gen = 0.
+Proof. exact long_source_constants. Qed.
+Print Assumptions C03_long_source_constants.
+
+Example C03_r3_nonvacuous :
+  add_short_class 10 2 12345 0 67891 3 Positive = false /\ ctx_add_x 10 2 MHalfEven 12345 0 67891 3 = AInexact 68 6 AddOne /\
+  ctx_sub_fixed_x 10 2 MUp 0 0 1235 0 = AInexact (-12) 2 NoOp /\
+  mul_long_class 10 2 1234 567 = false /\ ctx_mul 10 2 MHalfEven 1234 0 567 0 = AInexact 70 4 AddOne /\
+  div_long_class 10 2 12345 678 = false /\ ctx_div_x 10 2 MHalfEven 12345 0 678 0 = Ok (AInexact 18 0 NoOp) /\
+  ctx_sqrt 10 2 MUp 40001 0 = Ok (AInexact 21 1 AddOne) /\ ctx_sqrt 10 1 MHalfEven 225 0 = Ok (AInexact 2 1 AddOne) /\
+  repr_rem 10 2 MHalfEven 7 0 2 0 = Ok (AExact (-1) 0) /\ repr_rem 10 2 MHalfEven 12345 0 7 3 = Ok (AInexact (-17) 2 SubOne) /\
+  fbig_rem_euclid 10 1 1 MHalfEven (-1) 0 1 5 = Ok (1, 5) /\ fbig_div_euclid 10 (-1) 0 1 5 = Ok (-1) /\
+  fbig_inv 10 2 MUp 7 0 = Ok (15, -2) /\ add_float_prim_vv_x 10 2 MHalfEven 15 (-1) 1234 Positive = (1236, 0) /\
+  ctx_add_n_x 10 2 MHalfEven 99 0 5 (-1) = AInexact 1 2 AddOne /\ is_normal 10 95 0 = true /\ is_normal 10 100 0 = false.
+Proof. vm_compute. repeat split; discriminate. Qed.
